@@ -68,3 +68,9 @@ Print Assumptions c09_uniform_label_matrix.
     indices (whole-function match, regenerated) *)
 Theorem c09_c_trans_in_force : c_trans_is_constant_label_matrix = true.
 Proof. reflexivity. Qed.
+
+(** Hand-modelled code this property's model and correspondences were written against is unchanged (the first-order classes):
+    whole-function match against the recorded source, regenerated on every run. *)
+From SymfcG Require Import ShapesO1.
+Theorem c09_recorded_sources_in_force : ShapesO1_as_recorded = true.
+Proof. repeat split; reflexivity. Qed.
